@@ -15,16 +15,4 @@ ENGINES = [
 ]
 NOTES = "Machine-checked proof in Coq on hand-written models, tied to /repo by correspondence checks and translators; see DESIGN.md."
 NOT_APPLICABLE = {}
-CHECKS = {
-    "C28": {
-        "category": "proof",
-        "technique": "Coq proof (induction over documents) + model/implementation correspondence",
-        "text": "Theorems over the Gallina transcription of render.rs for ALL documents and options: content preservation "
-                "(relation Contents), anchors = document's anchored fragments in order, every anchor's line/column is the true "
-                "position of its text (documents in wf_pos). The model is tied to veryl_pretty by byte-for-byte correspondence "
-                "on generated documents and the property's own oracle runs on the implementation's output.",
-        "note": "Trusted: Coq kernel; hand-written model coq/Pretty/{Doc,Render}.v (unbounded N/Z for usize/i32); vh-pretty harness; "
-                "python generator/oracle. No axioms (Print Assumptions: closed). Anchor theorem assumes newline in {LF, CRLF}, "
-                "Line/IfBreak texts without newline, anchored texts non-empty and not ending in a space.",
-    },
-}
+CHECKS = {}  # per-property entries live in vp/props/cXX.py as MANIFEST = {...}
